@@ -34,7 +34,8 @@ def generate(rng, i):
     sc = gen_acct.generate(rng, PROFILE)
     # differential twin (oracle 3): no rate events, no interest; only user-defined / built-in non-rate contracts
     has_interest = any(op["op"] in ("rate", "accrue") for op in sc["script"])
-    if rng.random() < 0.35 and not has_interest:
+    # (no fixed fee either: a rounding-level dust trade that only one of the two accounts makes would cost a whole fee)
+    if rng.random() < 0.45 and not has_interest and not sc["fees"].get("fixed"):
         sc["twin"] = rng.randrange(len(sc["contracts"]))
         sc["twin_mreq"] = rng.choice([0.05, 0.25, 1.0])
     return sc
